@@ -208,6 +208,7 @@ def samples_conversions(c, kind, N=3):
             c.eq('mean_of_funvals_is_the_per_coordinate_mean_over_the_samples', np.asarray(f.mean(), dtype=float), ref, tol=1e-12)
     back = f.parameters
     c.holds('parameters_flags', back.is_par and back.is_vec and back.geometry is g)
+    c.holds('parameters_of_funvals_has_one_column_per_sample', np.shape(back.samples) == (n, N), note=str(np.shape(back.samples)))
     c.eq('parameters_of_funvals_is_lossless', back.samples, A)
     try:
         v = f.vector
@@ -259,6 +260,7 @@ def jobs(tier):
         for k in ((0, 2) if q else (0, 1, 2, 3)):
             J.append(Job(f'{kind}:roundtrip_and_columnwise:batch={k}', lambda c, kind=kind, k=k: roundtrip(c, kind, k), 'Pbox', fl, maxpaths=4096))
         J.append(Job(f'{kind}:Samples_conversions', lambda c, kind=kind: samples_conversions(c, kind), 'Pbox', fl + ['cuqi.samples._samples:Samples.funvals', 'cuqi.samples._samples:Samples.parameters', 'cuqi.samples._samples:Samples.vector'], maxpaths=4096))
+        J.append(Job(f'{kind}:Samples_conversions:one_sample', lambda c, kind=kind: samples_conversions(c, kind, 1), 'Pbox', fl + ['cuqi.samples._samples:Samples.funvals', 'cuqi.samples._samples:Samples.parameters', 'cuqi.samples._samples:Samples.vector'], maxpaths=4096))
         J.append(Job(f'{kind}:CUQIarray_conversions', lambda c, kind=kind: cuqiarray_conversions(c, kind), 'Pbox', fl + ['cuqi.array._array:CUQIarray.funvals', 'cuqi.array._array:CUQIarray.parameters']))
     # singleton axes: one parameter (one step / one mode / one node), grids with a one-node axis - shapes reported must still be the shapes produced
     for kind in ('Step:mean:4:1', 'KL:5:1', 'Continuous2D:1x3', 'Continuous2D:3x1', 'Image2D:C:1x3', 'Continuous1D:1', 'Discrete:1'):
